@@ -37,6 +37,7 @@ def _rt_object(ctx, flavour):
 
 
 marks_events = {}
+region_logs = {}      # outdir -> (region records, partition-wise finals) of runs in region mode (C18)
 
 
 class BuildFailure(Exception):
@@ -86,10 +87,12 @@ class Cfg:
         self.again = kw.get('again', (0, 1)); self.sleep = kw.get('sleep', (0, 200)); self.seed = kw.get('seed', 1)
         self.mca = dict(kw.get('mca', {})); self.scenario = kw.get('scenario', 'together'); self.yield_ = kw.get('yield_', None)
         self.flavour = kw.get('flavour', 'asan'); self.env = dict(kw.get('env', {})); self.table = kw.get('table'); self.events = kw.get('events', 0)
+        self.mb = kw.get('mb', 0); self.mpimt = kw.get('mpimt', 0)      # region mode (typed programs, C18): tile = mb x mb, ts must be mb*mb
 
     def ident(self):
-        return (self.flavour, self.sched, self.cores, self.ranks, self.place, self.pseed, self.ts, self.again, self.sleep, self.scenario,
-                tuple(sorted(self.mca.items())), self.yield_)
+        t = (self.flavour, self.sched, self.cores, self.ranks, self.place, self.pseed, self.ts, self.again, self.sleep, self.scenario,
+             tuple(sorted(self.mca.items())), self.yield_)
+        return t + (('mb', self.mb, 'mpimt', self.mpimt),) if (self.mb or self.mpimt) else t
 
     def short(self):
         s = '%s sched=%s cores=%d ranks=%d place=%s ts=%d' % (self.flavour, self.sched, self.cores, self.ranks, self.place, self.ts)
@@ -98,6 +101,8 @@ class Cfg:
         if self.mca: s += ' mca=' + ','.join('%s=%s' % kv for kv in sorted(self.mca.items()))
         if self.yield_: s += ' yield=' + self.yield_
         if self.scenario != 'together': s += ' scenario=' + self.scenario
+        if self.mb: s += ' mb=%d' % self.mb
+        if self.mpimt: s += ' mpi-thread-multiple'
         return s
 
 
@@ -109,6 +114,8 @@ def run_program(ctx, exe, nk, cfg, outdir, tag, timeout=240, stall_s=45):
     cmd = [exe, '--cores', str(cfg.cores), '--nk', str(nk), '--ts', str(cfg.ts), '--seed', str(cfg.seed), '--again', '%d:%d' % cfg.again,
            '--sleep', '%d:%d' % cfg.sleep, '--out', outdir, '--place', pf, '--scenario', cfg.scenario, '--events', str(cfg.events), '--', '--mca', 'mca_sched', cfg.sched]
     for k, v in sorted(cfg.mca.items()): cmd += ['--mca', k, str(v)]
+    if cfg.mb or cfg.mpimt:
+        i = cmd.index('--'); cmd[i:i] = ['--mb', str(cfg.mb), '--mpimt', str(cfg.mpimt)]
     env = dict(cfg.env)
     if cfg.yield_: env['PARSEC_VERIF_YIELD'] = cfg.yield_
     r = ctx.run(cmd, env=env, timeout=timeout, stall_s=stall_s, mpi=cfg.ranks if cfg.ranks > 1 else 0, tag=tag)
@@ -119,7 +126,7 @@ def run_program(ctx, exe, nk, cfg, outdir, tag, timeout=240, stall_s=45):
 def load_logs(outdir, ranks):
     """-> (records, finals{key:(val,bad)}, marks[(rank,kind,a,b,stamp)], complete: bool)"""
     recs = []; finals = {}; marks = []; complete = True
-    events = []
+    events = []; regs = []; gfin = {}
     for rk in range(ranks):
         lf = os.path.join(outdir, 'log.%d.bin' % rk); ff = os.path.join(outdir, 'final.%d.txt' % rk)
         if not (os.path.exists(lf) and os.path.exists(ff)):
@@ -137,9 +144,14 @@ def load_logs(outdir, ranks):
             elif w[0] == 'M': marks.append((rk, int(w[1]), int(w[2]), int(w[3]), int(w[4])))
             elif w[0] == 'E': events.append(dict(rank=rk, kind=int(w[1]), peer=int(w[2]), root=int(w[3]), cid=int(w[4]), tpid=int(w[5]), cls=w[6],
                                                   l=tuple(int(x) for x in w[7:11]), mask=int(w[11]), stamp=int(w[12])))
+            elif w[0] == 'R': regs.append(dict(rank=rk, tp=int(w[1]), cls=int(w[2]), p=tuple(int(x) for x in w[3:7]), flow=int(w[7]), kind=int(w[8]), inv=int(w[9]),
+                                               v=(int(w[10]), int(w[12]), int(w[14])), ok=(int(w[11]), int(w[13]), int(w[15])), ptr=int(w[16], 16), stamp=int(w[17])))
+            elif w[0] == 'G': gfin[int(w[1])] = ((int(w[2]), int(w[4]), int(w[6])), (int(w[3]), int(w[5]), int(w[7])))
+            elif w[0] == 'ROVERFLOW': complete = False
             elif w[0] == 'END': ended = True
         if not ended: complete = False
     marks_events[outdir] = events
+    if regs or gfin: region_logs[outdir] = (regs, gfin)
     return recs, finals, marks, complete
 
 
